@@ -82,12 +82,12 @@ inductive Kw where
   | pdffit | sphere | stepcut | generator | molecule | symmetry
   deriving DecidableEq, Repr, Inhabited
 
-def Kw.ofNat : Nat → Kw
+def Kw.ofCode : Nat → Kw
   | 1 => .title | 2 => .scale | 3 => .sharp | 4 => .spcgr | 5 => .shape | 6 => .cell | 7 => .dcell
   | 8 => .ncell | 9 => .format | 10 => .atoms | 11 => .pdffit | 12 => .sphere | 13 => .stepcut
   | 14 => .generator | 15 => .molecule | 16 => .symmetry | _ => .other
 
-def Kw.toNat : Kw → Nat
+def Kw.code : Kw → Nat
   | .other => 0 | .title => 1 | .scale => 2 | .sharp => 3 | .spcgr => 4 | .shape => 5 | .cell => 6 | .dcell => 7
   | .ncell => 8 | .format => 9 | .atoms => 10 | .pdffit => 11 | .sphere => 12 | .stepcut => 13
   | .generator => 14 | .molecule => 15 | .symmetry => 16
@@ -153,10 +153,10 @@ def LatOut.run : LatOut → M Unit
   | .zeroDiv => raise .ZeroDivisionError
   | .latticeError => raise .LatticeError
 
-def LatOut.ofNat : Nat → LatOut
+def LatOut.ofCode : Nat → LatOut
   | 1 => .valueError | 2 => .zeroDiv | 3 => .latticeError | _ => .ok
 
-def LatOut.toNat : LatOut → Nat
+def LatOut.code : LatOut → Nat
   | .ok => 0 | .valueError => 1 | .zeroDiv => 2 | .latticeError => 3
 
 /-- `int → float` conversion raises `OverflowError` beyond the double range
@@ -214,8 +214,7 @@ def latticeCtor (n : Nat) (o : LatOut) : M Unit :=
 
 /-- `_parse_shape(line)` of p_pdffit: all indexing is into the comma-free split. -/
 def pdffitShape (l : Line) : M Unit := do
-  let w0 ← idx l.cwords 0
-  if w0.kw ≠ .shape then raise .AssertionError
+  -- `assert words[0] == "shape"` cannot fail: the record was dispatched on the comma-free first word
   let t ← idx l.cwords 1
   if t.kw = .sphere ∨ t.kw = .stepcut then floatAt l.cwords 2
   else raise .SFE
@@ -282,11 +281,15 @@ def pdffitAtoms : Nat → List Line → Nat → M Nat
     pdffitAtoms fuel rest (n + 1)
 
 /-- `[latpars[i] * ncell[i] for i in range(3)]` followed by `Lattice(*superlatpars)` -/
+def superStep (nLatpars : Nat) (ncell : List Int) (i : Nat) : M Unit := do
+  if nLatpars ≤ i then raise .IndexError
+  let n ← idx ncell i
+  mulFloatInt n
+
 def superCell (nLatpars : Nat) (ncell : List Int) (superLat : LatOut) : M Unit := do
-  for i in [0, 1, 2] do
-    if nLatpars ≤ i then raise .IndexError
-    let n ← idx ncell i
-    mulFloatInt n
+  superStep nLatpars ncell 0
+  superStep nLatpars ncell 1
+  superStep nLatpars ncell 2
   superLat.run
 
 def pdffitBody (cfg : PdffitCfg) (d : PdffitDoc) : M Unit := do
@@ -466,5 +469,729 @@ def rawxyzRun (cfg : RawxyzCfg) (d : XyzDoc) : M Unit := do
       else raise .SFE
 
 def parseRawxyz (cfg : RawxyzCfg) (d : XyzDoc) : Outcome := toOutcome (rawxyzRun cfg d)
+
+/-! ## XCFG (`p_xcfg.py`) -/
+
+structure XcfgCfg where
+  H : List Kind
+  /-- the explicit `if xcfg_A is None: raise StructureFormatError` check is present -/
+  checkA : Bool
+  deriving Repr
+
+/-- header view of a line: which `elif` of the header loop it takes once the particle count is known -/
+inductive XKind where
+  | blank | comment | number | a | h0 | noVelocity | entryCount | aux | other
+  deriving DecidableEq, Repr, Inhabited
+
+def XKind.ofCode : Nat → XKind
+  | 0 => .blank | 1 => .comment | 2 => .number | 3 => .a | 4 => .h0 | 5 => .noVelocity
+  | 6 => .entryCount | 7 => .aux | _ => .other
+
+def XKind.code : XKind → Nat
+  | .blank => 0 | .comment => 1 | .number => 2 | .a => 3 | .h0 => 4 | .noVelocity => 5
+  | .entryCount => 6 | .aux => 7 | .other => 8
+
+/-- `int(line[k])` for a single character: line too short / not a digit / the digit -/
+inductive DigitRes where
+  | short | bad | val (d : Nat)
+  deriving DecidableEq, Repr, Inhabited
+
+def DigitRes.run : DigitRes → M Nat
+  | .short => raise .IndexError
+  | .bad => raise .ValueError
+  | .val d => pure d
+
+/-- outcome of assigning one auxiliary value to a fresh atom (`_assign_auxiliaries`, real primitive) -/
+inductive AuxOut where
+  | ok | indexError | typeError | attributeError | valueError
+  deriving DecidableEq, Repr, Inhabited
+
+def AuxOut.run : AuxOut → M Unit
+  | .ok => pure ()
+  | .indexError => raise .IndexError
+  | .typeError => raise .TypeError
+  | .attributeError => raise .AttributeError
+  | .valueError => raise .ValueError
+
+def AuxOut.ofCode : Nat → AuxOut
+  | 1 => .indexError | 2 => .typeError | 3 => .attributeError | 4 => .valueError | _ => .ok
+
+def AuxOut.code : AuxOut → Nat
+  | .ok => 0 | .indexError => 1 | .typeError => 2 | .attributeError => 3 | .valueError => 4
+
+structure XLine where
+  hk : XKind := .other
+  /-- the token after the key (`line[k:].split(None, 1)[0]`); `none` = nothing there (`IndexError`) -/
+  tok : Option Tok := none
+  hi : DigitRes := .short
+  hj : DigitRes := .short
+  /-- `int(m.group(1))` of an `auxiliary[n] =` line (`none` = `ValueError`, more than 4300 digits) -/
+  auxIdx : Option Nat := none
+  auxOut : AuxOut := .ok
+  /-- data view: `len(line.split())`, `isfloat(words[0])`, all words convert -/
+  nw : Nat := 0
+  w0flt : Bool := false
+  allflt : Bool := false
+  deriving DecidableEq, Repr, Inhabited
+
+structure XcfgDoc where
+  lines : List XLine
+  /-- outcome of `stru.lattice.setLatBase(xcfg_H0)` -/
+  baseLat : LatOut := .ok
+  deriving DecidableEq, Repr, Inhabited
+
+structure XState where
+  number : Option Int := none
+  aSet : Bool := false
+  h0set : List Bool := [false, false, false, false, false, false, false, false, false]
+  noVel : Bool := false
+  entryCount : Option Int := none
+  /-- `p_auxiliary` in dict (insertion) order -/
+  aux : List (Nat × AuxOut) := []
+  deriving Repr
+
+def tokAt (t : Option Tok) : M Tok :=
+  match t with
+  | some t => pure t
+  | none => raise .IndexError
+
+/-- `d[k] = v` keeping the insertion position of an existing key -/
+def dictSet {β} (d : List (Nat × β)) (k : Nat) (v : β) : List (Nat × β) :=
+  if d.any (·.1 == k) then d.map (fun p => if p.1 == k then (k, v) else p) else d ++ [(k, v)]
+
+/-- numpy index `H0[i, j]` with `i = d - 1`: valid for `d ∈ {0,1,2,3}` (−1 wraps to the last row) -/
+def h0Index (d : Nat) : M Nat :=
+  if d = 0 then pure 2 else if d ≤ 3 then pure (d - 1) else raise .IndexError
+
+def xcfgHeader : List XLine → XState → M (XState × List XLine)
+  | [], st => pure (st, [])
+  | l :: rest, st =>
+    match l.hk with
+    | .blank => xcfgHeader rest st
+    | .comment => xcfgHeader rest st
+    | hk =>
+      match st.number with
+      | none =>
+        if hk ≠ .number then raise .SFE else do
+        let t ← tokAt l.tok
+        let v ← pyInt t
+        xcfgHeader rest { st with number := some v }
+      | some _ =>
+        match hk with
+        | .a => do
+          let t ← tokAt l.tok
+          pyFloat t
+          xcfgHeader rest { st with aSet := true }
+        | .h0 => do
+          let di ← l.hi.run
+          let dj ← l.hj.run
+          let t ← tokAt l.tok
+          pyFloat t
+          let i ← h0Index di
+          let j ← h0Index dj
+          xcfgHeader rest { st with h0set := st.h0set.set (3 * i + j) true }
+        | .noVelocity => xcfgHeader rest { st with noVel := true }
+        | .entryCount => do
+          let t ← tokAt l.tok
+          let v ← pyInt t
+          xcfgHeader rest { st with entryCount := some v }
+        | .aux =>
+          match l.auxIdx with
+          | none => raise .ValueError
+          | some k => do
+            let _ ← tokAt l.tok
+            xcfgHeader rest { st with aux := dictSet st.aux k l.auxOut }
+        | _ => pure (st, rest)                    -- `else: break` (the line is consumed)
+
+/-- a `for i in range(n)` loop filling a dict beyond this size is observed as hang / MemoryError -/
+def resourceBound : Nat := 10 ^ 8
+
+def auxRun : List (Nat × AuxOut) → M Unit
+  | [] => pure ()
+  | p :: ps => do p.2.run; auxRun ps
+
+/-- data block; `elemSet` is `p_element is not None` -/
+def xcfgData (aSet : Bool) (entryCount : Int) (aux : List (Nat × AuxOut)) : List XLine → Bool → Nat → M Nat
+  | [], _, n => pure n
+  | l :: rest, elemSet, n =>
+    if l.nw = 1 ∧ l.w0flt then xcfgData aSet entryCount aux rest elemSet n
+    else if l.nw ≤ 1 then xcfgData aSet entryCount aux rest true n
+    else if (l.nw : Int) = entryCount ∧ elemSet then do
+      if !l.allflt then raise .ValueError
+      if !aSet then raise .TypeError            -- `None * float`
+      auxRun aux
+      xcfgData aSet entryCount aux rest elemSet (n + 1)
+    else raise .SFE
+
+def xcfgBody (cfg : XcfgCfg) (d : XcfgDoc) : M Unit := do
+  let ls := stripTrailing (fun l : XLine => l.hk = .blank) d.lines
+  let (st, rest) ← xcfgHeader ls {}
+  if cfg.checkA ∧ !st.aSet then raise .SFE
+  if st.h0set.any (!·) then raise .SFE
+  let auxnum := match st.aux.map (·.1) with
+    | [] => 0
+    | k :: ks => ks.foldl max k + 1
+  if auxnum ≥ resourceBound then raise .Resource
+  -- missing indices are filled with plain names; after that `len(p_auxiliary) = auxnum`
+  let ecnt : Int := (auxnum : Int) + (if st.noVel then 3 else 6)
+  match st.entryCount with
+  | none => raise .SFE
+  | some ec =>
+    if ecnt ≠ ec then raise .SFE
+    d.baseLat.run
+    let n ← xcfgData st.aSet ec st.aux rest false 0
+    match st.number with
+    | none => raise .UnboundLocalError           -- `p_natoms` never bound; unreachable with `checkA`
+    | some v => if (n : Int) ≠ v then raise .SFE
+
+def parseXcfg (cfg : XcfgCfg) (d : XcfgDoc) : Outcome :=
+  toOutcome (tryExcept cfg.H (xcfgBody cfg d))
+
+/-! ## PDB (`p_pdb.py`) -/
+
+structure PdbCfg where
+  H : List Kind
+  /-- handler tuple of the inner `try` blocks around the optional occupancy / B columns -/
+  Hopt : List Kind
+  /-- `elif record in ("SIGATM", "ANISOU", "SIGUIJ") and last_atom is None: raise StructureFormatError` -/
+  guard : Bool
+  /-- `last_atom = None` is assigned before the loop -/
+  lastAtomInit : Bool
+  deriving Repr
+
+inductive PRec where
+  | blank | title | cryst1 | scale1 | scale2 | scale3 | atom | sigatm | anisou | siguij | valid | invalid
+  deriving DecidableEq, Repr, Inhabited
+
+def PRec.ofCode : Nat → PRec
+  | 0 => .blank | 1 => .title | 2 => .cryst1 | 3 => .scale1 | 4 => .scale2 | 5 => .scale3 | 6 => .atom
+  | 7 => .sigatm | 8 => .anisou | 9 => .siguij | 10 => .valid | _ => .invalid
+
+def PRec.code : PRec → Nat
+  | .blank => 0 | .title => 1 | .cryst1 => 2 | .scale1 => 3 | .scale2 => 4 | .scale3 => 5 | .atom => 6
+  | .sigatm => 7 | .anisou => 8 | .siguij => 9 | .valid => 10 | .invalid => 11
+
+structure PLine where
+  kind : PRec := .invalid
+  /-- number of tokens of the coordinate / matrix-row / Uij column range -/
+  n : Nat := 0
+  /-- all of them convert with `float()` (for CRYST1: all six fixed columns convert) -/
+  allf : Bool := false
+  /-- `float(line[45:55])` of a SCALEn record succeeds -/
+  uf : Bool := false
+  /-- optional columns convert (ATOM: occupancy, B; SIGATM: sigo, sigB) -/
+  occ : Bool := false
+  b : Bool := false
+  /-- ATOM: an element symbol can be read (columns 77-78 or 13-14 non-blank) -/
+  elemOk : Bool := false
+  /-- CRYST1: `setLatPar`; SCALE3: `setLatBase` -/
+  lat : LatOut := .ok
+  /-- SCALE3: `numpy.linalg.inv(sc)` succeeds; cell consistent with CRYST1; origin offset non-zero -/
+  invOk : Bool := true
+  consistent : Bool := true
+  offset : Bool := false
+  deriving DecidableEq, Repr, Inhabited
+
+structure PdbDoc where
+  lines : List PLine
+  deriving DecidableEq, Repr, Inhabited
+
+/-- `sc[k, :] = [float(x) for x in line[10:40].split()]; scaleU[k] = float(line[45:55])` -/
+def pdbScaleRow (l : PLine) : M Unit := do
+  if !l.allf then raise .ValueError
+  if l.n ≠ 1 ∧ l.n ≠ 3 then raise .ValueError     -- numpy broadcast of the row
+  if !l.uf then raise .ValueError
+
+/-- state: `none` = no atom yet; `some s` = last atom, `s` = it has a `sigU` attribute -/
+def pdbNoAtom (cfg : PdbCfg) : M Unit :=
+  if cfg.guard then raise .SFE
+  else if cfg.lastAtomInit then raise .AttributeError else raise .UnboundLocalError
+
+def pdbLoop (cfg : PdbCfg) : List PLine → Option Bool → M Unit
+  | [], _ => pure ()
+  | l :: rest, last =>
+    match l.kind with
+    | .blank => pdbLoop cfg rest last
+    | .title => pdbLoop cfg rest last
+    | .cryst1 => do
+      if !l.allf then raise .ValueError
+      l.lat.run
+      pdbLoop cfg rest last
+    | .scale1 => do pdbScaleRow l; pdbLoop cfg rest last
+    | .scale2 => do pdbScaleRow l; pdbLoop cfg rest last
+    | .scale3 => do
+      pdbScaleRow l
+      if !l.invOk then raise .ValueError          -- numpy.linalg.LinAlgError is a ValueError
+      l.lat.run
+      if !l.consistent then raise .SFE
+      if l.offset then raise .NotImpl
+      pdbLoop cfg rest last
+    | .atom => do
+      if !l.allf then raise .ValueError
+      trySwallow cfg.Hopt (if l.occ then pure () else raise .ValueError)
+      trySwallow cfg.Hopt (if l.b then pure () else raise .ValueError)
+      if !l.elemOk then raise .IndexError
+      if l.n ≠ 3 then raise .ValueError           -- xyz_cartn setter: shape mismatch
+      pdbLoop cfg rest (some false)
+    | .sigatm =>
+      match last with
+      | none => pdbNoAtom cfg
+      | some _ => do
+        if !l.allf then raise .ValueError
+        if l.n ≠ 3 then raise .ValueError         -- numpy.dot(scale, sigrc)
+        trySwallow cfg.Hopt (if l.occ then pure () else raise .ValueError)
+        trySwallow cfg.Hopt (if l.b then pure () else raise .ValueError)
+        pdbLoop cfg rest (some true)
+    | .anisou =>
+      match last with
+      | none => pdbNoAtom cfg
+      | some s => do
+        if !l.allf then raise .ValueError
+        if l.n < 6 then raise .IndexError
+        pdbLoop cfg rest (some s)
+    | .siguij =>
+      match last with
+      | none => pdbNoAtom cfg
+      | some s => do
+        if !l.allf then raise .ValueError
+        if l.n = 0 then raise .IndexError
+        if !s then raise .AttributeError          -- `last_atom.sigU` exists only after SIGATM
+        if l.n < 6 then raise .IndexError
+        pdbLoop cfg rest (some s)
+    | .valid => pdbLoop cfg rest last
+    | .invalid => raise .SFE
+
+def parsePdb (cfg : PdbCfg) (d : PdbDoc) : Outcome :=
+  toOutcome (tryExcept cfg.H (pdbLoop cfg d.lines none))
+
+/-! ## CIF (`p_cif.py`): diffpy's glue after PyCifRW
+
+PyCifRW (`CifFile(...)`) is a parameter: it either raises one of an enumerated set of kinds or
+returns blocks.  The glue runs, for the first block that has `_atom_site_label`, the four block
+parsers in order; the outcome kind of each (computed by the real method on the real block) is an
+oracle field.  `_parse_lattice` has its own inner handler for `KeyError`. -/
+
+structure CifCfg where
+  H : List Kind
+  /-- inner handler of `_parse_lattice` -/
+  Hlat : List Kind
+  deriving Repr
+
+structure CifBlock where
+  hasSites : Bool := false
+  /-- kind raised inside the inner `try` of `_parse_lattice` (reading the six cell items) -/
+  cellItems : Option Kind := none
+  /-- kind raised by `Lattice(*latpars)` -/
+  lattice : Option Kind := none
+  sites : Option Kind := none
+  aniso : Option Kind := none
+  symops : Option Kind := none
+  deriving DecidableEq, Repr, Inhabited
+
+structure CifDoc where
+  cifFile : Option Kind := none
+  blocks : List CifBlock := []
+  deriving DecidableEq, Repr, Inhabited
+
+def step (o : Option Kind) : M Unit :=
+  match o with
+  | none => pure ()
+  | some k => raise k
+
+/-- returns `true` when a structure was produced -/
+def cifBlocks (cfg : CifCfg) : List CifBlock → M Bool
+  | [] => pure false
+  | b :: rest =>
+    if !b.hasSites then cifBlocks cfg rest
+    else do
+      tryExcept cfg.Hlat (step b.cellItems)
+      step b.lattice
+      step b.sites
+      step b.aniso
+      step b.symops
+      pure true
+
+def cifBody (cfg : CifCfg) (d : CifDoc) : M Bool := do
+  step d.cifFile
+  cifBlocks cfg d.blocks
+
+def parseCif (cfg : CifCfg) (d : CifDoc) : Outcome :=
+  match tryExcept cfg.H (cifBody cfg d) with
+  | .ok true => .ok
+  | .ok false => .none
+  | .error k => .err k
+
+/-- kinds PyCifRW is assumed to raise -/
+def cifFileKinds : List Kind := [.YappsSyntaxError, .StarError, .ValueError, .IndexError, .KeyError, .TypeError]
+/-- kinds each glue step may raise (validated by the harness on every document it abstracts) -/
+def cifCellKinds : List Kind := [.KeyError, .ValueError, .AttributeError]
+def cifLatticeKinds : List Kind := [.ValueError, .ZeroDivisionError]
+def cifSitesKinds : List Kind := [.KeyError, .ValueError, .IndexError, .AttributeError, .TypeError]
+def cifAnisoKinds : List Kind := [.KeyError, .ValueError, .IndexError, .AttributeError, .TypeError]
+def cifSymopsKinds : List Kind :=
+  [.SFE, .KeyError, .ValueError, .IndexError, .AttributeError, .TypeError, .ZeroDivisionError]
+
+def optIn (o : Option Kind) (S : List Kind) : Bool :=
+  match o with
+  | none => true
+  | some k => S.contains k
+
+def CifBlock.wf (b : CifBlock) : Bool :=
+  optIn b.cellItems cifCellKinds && optIn b.lattice cifLatticeKinds && optIn b.sites cifSitesKinds
+    && optIn b.aniso cifAnisoKinds && optIn b.symops cifSymopsKinds
+
+def CifDoc.wf (d : CifDoc) : Bool := optIn d.cifFile cifFileKinds && d.blocks.all CifBlock.wf
+
+/-! ## Kinds each handler tuple has to contain, and a witness document per kind
+
+`needed…` is derived by hand from the model (Lemmas/Parsers.lean proves it sufficient,
+`witness…_raises` proves each entry necessary). -/
+
+structure AllCfg where
+  pdffit : PdffitCfg
+  discus : DiscusCfg
+  xyz : XyzCfg
+  rawxyz : RawxyzCfg
+  xcfg : XcfgCfg
+  pdb : PdbCfg
+  cif : CifCfg
+  deriving Repr
+
+def neededPdffit (cfg : PdffitCfg) : List Kind :=
+  [.ValueError, .IndexError, .StopIteration, .ZeroDivisionError, .OverflowError]
+    ++ (if cfg.reduceInit then [] else [.TypeError])
+
+def neededDiscus (cfg : DiscusCfg) : List Kind :=
+  [.ValueError, .IndexError, .ZeroDivisionError, .OverflowError]
+    ++ (if cfg.reduceInit then [] else [.TypeError])
+
+def neededXyz1 : List Kind := [.IndexError, .ValueError]
+def neededXyz2 : List Kind := [.ValueError]
+def neededRawxyz : List Kind := [.ValueError]
+
+def neededXcfg (_cfg : XcfgCfg) : List Kind :=
+  [.ValueError, .IndexError, .TypeError, .ZeroDivisionError, .LatticeError, .AttributeError, .Resource]
+
+def neededPdb (cfg : PdbCfg) : List Kind :=
+  [.ValueError, .IndexError, .ZeroDivisionError, .LatticeError, .AttributeError]
+    ++ (if cfg.guard ∨ cfg.lastAtomInit then [] else [.UnboundLocalError])
+
+def neededCif : List Kind :=
+  [.YappsSyntaxError, .StarError, .ValueError, .IndexError, .KeyError, .TypeError, .ZeroDivisionError, .AttributeError]
+
+private def fl : Tok := { flt := true }                       -- a float that is not an int
+private def it (v : Int) : Tok := { int := some v, flt := true, canon := true }
+private def wd : Tok := {}                                     -- a word
+private def kw (k : Kw) : Tok := { kw := k }
+private def ln (ws : List Tok) : Line := { words := ws, cwords := ws }
+private def cellLine (o : LatOut := .ok) : Line :=
+  { words := [kw .cell, fl, fl, fl, fl, fl, fl], cwords := [kw .cell, fl, fl, fl, fl, fl, fl], lat := o }
+def hugeVal : Int := 10 ^ 400
+
+def witnessPdffit (k : Kind) : Option PdffitDoc :=
+  match k with
+  | .ValueError => some { lines := [ln [kw .scale, wd]] }
+  | .IndexError => some { lines := [ln [kw .scale]] }
+  | .StopIteration => some { lines := [cellLine, ln [kw .atoms], ln [wd, fl, fl, fl, fl]] }
+  | .ZeroDivisionError => some { lines := [cellLine .zeroDiv] }
+  | .OverflowError => some { lines := [cellLine, ln [kw .ncell, it hugeVal, it 0, it 1, it 1], ln [kw .atoms]] }
+  | .TypeError => some { lines := [cellLine, ln [kw .ncell], ln [kw .atoms]] }
+  | _ => none
+
+def witnessDiscus (k : Kind) : Option DiscusDoc :=
+  match k with
+  | .ValueError => some { lines := [ln [kw .cell, wd]] }
+  | .IndexError => some { lines := [ln [kw .format]] }
+  | .ZeroDivisionError => some { lines := [cellLine, ln [kw .ncell, it 0, it 1, it 1, it 1], ln [kw .atoms]], superLat := .zeroDiv }
+  | .OverflowError => some { lines := [cellLine, ln [kw .ncell, it hugeVal, it 0, it 1, it 1], ln [kw .atoms]] }
+  | .TypeError => some { lines := [cellLine, ln [kw .ncell], ln [kw .atoms]] }
+  | _ => none
+
+def witnessXyz1 (k : Kind) : Option XyzDoc :=
+  match k with
+  | .IndexError => some { lines := [[]] }
+  | .ValueError => some { lines := [[wd]] }
+  | _ => none
+
+def witnessXyz2 (k : Kind) : Option XyzDoc :=
+  match k with
+  | .ValueError => some { lines := [[it 1], [wd], [wd, fl, fl, wd]] }
+  | _ => none
+
+def witnessRawxyz (k : Kind) : Option XyzDoc :=
+  match k with
+  | .ValueError => some { lines := [[fl, fl, fl], [fl, fl, wd]] }
+  | _ => none
+
+private def xh (i j : Nat) : XLine := { hk := .h0, tok := some fl, hi := .val i, hj := .val j, nw := 3 }
+/-- a complete header for one particle without velocities and with the given auxiliaries -/
+private def xHeader (aux : List (Nat × AuxOut)) : List XLine :=
+  [ { hk := .number, tok := some (it 1), nw := 5 }, { hk := .a, tok := some fl, nw := 3 },
+    xh 1 1, xh 1 2, xh 1 3, xh 2 1, xh 2 2, xh 2 3, xh 3 1, xh 3 2, xh 3 3,
+    { hk := .noVelocity, nw := 1 },
+    { hk := .entryCount, tok := some (it (3 + aux.length)), nw := 3 } ]
+  ++ aux.map (fun p => { hk := .aux, tok := some wd, auxIdx := some p.1, auxOut := p.2, nw := 3 })
+private def xAtoms (n : Nat) : List XLine :=
+  [ { hk := .other, nw := 1, w0flt := true, allflt := true },      -- mass line, ends the header
+    { hk := .other, nw := 1 },                                      -- element symbol
+    { hk := .other, nw := n, w0flt := true, allflt := true } ]      -- one atom record
+
+def witnessXcfg (k : Kind) : Option XcfgDoc :=
+  match k with
+  | .ValueError => some { lines := [{ hk := .number, tok := some wd, nw := 5 }] }
+  | .IndexError => some { lines := [{ hk := .number, tok := none, nw := 4 }] }
+  | .TypeError => some { lines := xHeader [(0, .typeError)] ++ xAtoms 4 }
+  | .AttributeError => some { lines := xHeader [(0, .attributeError)] ++ xAtoms 4 }
+  | .ZeroDivisionError => some { lines := xHeader [], baseLat := .zeroDiv }
+  | .LatticeError => some { lines := xHeader [], baseLat := .latticeError }
+  | .Resource => some { lines := xHeader [(10 ^ 10, .ok)] }
+  | _ => none
+
+private def pAtom : PLine := { kind := .atom, n := 3, allf := true, occ := true, b := true, elemOk := true }
+
+def witnessPdb (k : Kind) : Option PdbDoc :=
+  match k with
+  | .ValueError => some { lines := [{ kind := .cryst1, allf := false }] }
+  | .IndexError => some { lines := [{ pAtom with elemOk := false }] }
+  | .ZeroDivisionError => some { lines := [{ kind := .cryst1, allf := true, lat := .zeroDiv }] }
+  | .LatticeError => some { lines := [{ kind := .scale3, n := 3, allf := true, uf := true, lat := .latticeError }] }
+  | .AttributeError => some { lines := [pAtom, { kind := .siguij, n := 6, allf := true }] }
+  | .UnboundLocalError => some { lines := [{ kind := .anisou, n := 6, allf := true }] }
+  | _ => none
+
+def witnessCif (k : Kind) : Option CifDoc :=
+  match k with
+  | .ZeroDivisionError => some { blocks := [{ hasSites := true, lattice := some .ZeroDivisionError }] }
+  | .AttributeError => some { blocks := [{ hasSites := true, cellItems := some .AttributeError }] }
+  | k => if cifFileKinds.contains k then some { cifFile := some k } else none
+
+/-! ## Line protocol: encoding of abstract documents
+
+One word per item.  `t<kw>,<int|n>,<flags>` is a token (`flags` ⊆ `fhxc`: float ok, starts with `#`,
+equals `#`, canonical int); `L<lat>` starts a line, `C` switches to the comma-free split of the same
+line; `S<lat>` / `B<lat>` are the document-level lattice outcomes; `X…` an XCFG line; `P…` a PDB
+line; `F<kind|->`, `K…` the CIF document. -/
+
+def b01 (b : Bool) : String := if b then "1" else "0"
+def of01 (s : String) : Option Bool := if s = "1" then some true else if s = "0" then some false else none
+
+def Tok.encode (t : Tok) : String :=
+  let i := match t.int with | some v => toString v | none => "n"
+  let f := (if t.flt then "f" else "") ++ (if t.hash then "h" else "") ++ (if t.isHash then "x" else "")
+    ++ (if t.canon then "c" else "")
+  s!"t{t.kw.code},{i},{f}"
+
+def tail1 (s : String) : String := (s.drop 1).toString
+
+def optInt (s : String) : Option (Option Int) := if s = "n" then some none else s.toInt?.map some
+def optNat (s : String) : Option (Option Nat) := if s = "n" then some none else s.toNat?.map some
+
+def Tok.decode (w : String) : Option Tok :=
+  match (tail1 w).splitOn "," with
+  | [k, i, f] => do
+    let k ← k.toNat?
+    let i ← optInt i
+    let cs := f.toList
+    if cs.all (fun c => c == 'f' || c == 'h' || c == 'x' || c == 'c') then
+      pure { kw := Kw.ofCode k, int := i, flt := cs.contains 'f', hash := cs.contains 'h',
+             isHash := cs.contains 'x', canon := cs.contains 'c' }
+    else none
+  | _ => none
+
+def Line.encode (l : Line) : List String :=
+  [s!"L{l.lat.code}"] ++ l.words.map Tok.encode ++ ["C"] ++ l.cwords.map Tok.encode
+
+/-- decoder state: finished lines (reversed), current line, whether `C` was seen -/
+def decodeLines : List String → List Line → Option Line → Bool → Option (List Line)
+  | [], acc, cur, _ => some ((match cur with | some l => l :: acc | none => acc).reverse)
+  | w :: ws, acc, cur, c =>
+    match w.front with
+    | 'L' =>
+      match (tail1 w).toNat? with
+      | some o =>
+        let acc := match cur with | some l => l :: acc | none => acc
+        decodeLines ws acc (some { lat := LatOut.ofCode o }) false
+      | none => none
+    | 'C' => if w = "C" then decodeLines ws acc cur true else none
+    | 't' =>
+      match Tok.decode w, cur with
+      | some t, some l =>
+        decodeLines ws acc (some (if c then { l with cwords := l.cwords ++ [t] } else { l with words := l.words ++ [t] })) c
+      | _, _ => none
+    | _ => none
+
+/-- `S<lat>` followed by lines -/
+def decodeWordDoc (ws : List String) : Option (LatOut × List Line) :=
+  match ws with
+  | w :: rest =>
+    if w.front = 'S' then do
+      let o ← (tail1 w).toNat?
+      let ls ← decodeLines rest [] none false
+      pure (LatOut.ofCode o, ls)
+    else none
+  | [] => none
+
+def PdffitDoc.encode (d : PdffitDoc) : List String := [s!"S{d.superLat.code}"] ++ d.lines.flatMap Line.encode
+def DiscusDoc.encode (d : DiscusDoc) : List String := [s!"S{d.superLat.code}"] ++ d.lines.flatMap Line.encode
+def XyzDoc.encode (d : XyzDoc) : List String := ["S0"] ++ d.lines.flatMap (fun l => ["L0"] ++ l.map Tok.encode)
+
+def DigitRes.encode : DigitRes → String
+  | .short => "s" | .bad => "b" | .val d => toString d
+def DigitRes.decode (s : String) : Option DigitRes :=
+  if s = "s" then some .short else if s = "b" then some .bad else s.toNat?.map .val
+
+def XLine.encode (l : XLine) : String :=
+  let (tp, ti, tf) := match l.tok with
+    | some t => ("1", (match t.int with | some v => toString v | none => "n"), b01 t.flt)
+    | none => ("0", "n", "0")
+  let ai := match l.auxIdx with | some k => toString k | none => "n"
+  s!"X{l.hk.code},{tp},{ti},{tf},{l.hi.encode},{l.hj.encode},{ai},{l.auxOut.code},{l.nw},{b01 l.w0flt},{b01 l.allflt}"
+
+def XLine.decode (w : String) : Option XLine :=
+  match (tail1 w).splitOn "," with
+  | [hk, tp, ti, tf, hi, hj, ai, ao, nw, w0, af] => do
+    let hk ← hk.toNat?
+    let tp ← of01 tp
+    let ti ← optInt ti
+    let tf ← of01 tf
+    let hi ← DigitRes.decode hi
+    let hj ← DigitRes.decode hj
+    let ai ← optNat ai
+    let ao ← ao.toNat?
+    let nw ← nw.toNat?
+    let w0 ← of01 w0
+    let af ← of01 af
+    pure { hk := XKind.ofCode hk, tok := if tp then some { int := ti, flt := tf } else none, hi := hi, hj := hj,
+           auxIdx := ai, auxOut := AuxOut.ofCode ao, nw := nw, w0flt := w0, allflt := af }
+  | _ => none
+
+def XcfgDoc.encode (d : XcfgDoc) : List String := [s!"B{d.baseLat.code}"] ++ d.lines.map XLine.encode
+
+def XcfgDoc.decode (ws : List String) : Option XcfgDoc :=
+  match ws with
+  | w :: rest =>
+    if w.front = 'B' then do
+      let o ← (tail1 w).toNat?
+      let ls ← rest.mapM XLine.decode
+      pure { lines := ls, baseLat := LatOut.ofCode o }
+    else none
+  | [] => none
+
+def PLine.encode (l : PLine) : String :=
+  s!"P{l.kind.code},{l.n},{b01 l.allf},{b01 l.uf},{b01 l.occ},{b01 l.b},{b01 l.elemOk},{l.lat.code},{b01 l.invOk},{b01 l.consistent},{b01 l.offset}"
+
+def PLine.decode (w : String) : Option PLine :=
+  match (tail1 w).splitOn "," with
+  | [k, n, af, uf, oc, b, el, la, iv, co, off] => do
+    let k ← k.toNat?
+    let n ← n.toNat?
+    let af ← of01 af
+    let uf ← of01 uf
+    let oc ← of01 oc
+    let b ← of01 b
+    let el ← of01 el
+    let la ← la.toNat?
+    let iv ← of01 iv
+    let co ← of01 co
+    let off ← of01 off
+    pure { kind := PRec.ofCode k, n := n, allf := af, uf := uf, occ := oc, b := b, elemOk := el,
+           lat := LatOut.ofCode la, invOk := iv, consistent := co, offset := off }
+  | _ => none
+
+def PdbDoc.encode (d : PdbDoc) : List String := d.lines.map PLine.encode
+def PdbDoc.decode (ws : List String) : Option PdbDoc := (ws.mapM PLine.decode).map (fun ls => { lines := ls })
+
+def encKind (o : Option Kind) : String := match o with | some k => k.name | none => "-"
+def decKind (s : String) : Option (Option Kind) := if s = "-" then some none else (Kind.ofName s).map some
+
+def CifBlock.encode (b : CifBlock) : String :=
+  s!"K{b01 b.hasSites},{encKind b.cellItems},{encKind b.lattice},{encKind b.sites},{encKind b.aniso},{encKind b.symops}"
+
+def CifBlock.decode (w : String) : Option CifBlock :=
+  match (tail1 w).splitOn "," with
+  | [h, c, l, s, a, y] => do
+    let h ← of01 h
+    let c ← decKind c
+    let l ← decKind l
+    let s ← decKind s
+    let a ← decKind a
+    let y ← decKind y
+    pure { hasSites := h, cellItems := c, lattice := l, sites := s, aniso := a, symops := y }
+  | _ => none
+
+def CifDoc.encode (d : CifDoc) : List String := [s!"F{encKind d.cifFile}"] ++ d.blocks.map CifBlock.encode
+
+def CifDoc.decode (ws : List String) : Option CifDoc :=
+  match ws with
+  | w :: rest =>
+    if w.front = 'F' then do
+      let f ← decKind (tail1 w)
+      let bs ← rest.mapM CifBlock.decode
+      pure { cifFile := f, blocks := bs }
+    else none
+  | [] => none
+
+/-! ## Driver handler -/
+
+def joinWords (ws : List String) : String := String.intercalate " " ws
+
+/-- kinds of `needed` the handler tuple `H` lacks, each with its witness document -/
+def missing {δ} (needed H : List Kind) (wit : Kind → Option δ) (enc : δ → List String) (tag : String) : List String :=
+  (needed.filter (fun k => !H.contains k)).map (fun k =>
+    match wit k with
+    | some d => s!"{tag}:{k.name}:{joinWords (enc d)}"
+    | none => s!"{tag}:{k.name}:?")
+
+def escapesOf (c : AllCfg) (fmt : String) : Option (List String) :=
+  match fmt with
+  | "pdffit" => some (missing (neededPdffit c.pdffit) c.pdffit.H witnessPdffit PdffitDoc.encode "pdffit")
+  | "discus" => some (missing (neededDiscus c.discus) c.discus.H witnessDiscus DiscusDoc.encode "discus")
+  | "xyz" => some (missing neededXyz1 c.xyz.H1 witnessXyz1 XyzDoc.encode "xyz"
+                   ++ missing neededXyz2 c.xyz.H2 witnessXyz2 XyzDoc.encode "xyz")
+  | "rawxyz" => some (missing neededRawxyz c.rawxyz.H witnessRawxyz XyzDoc.encode "rawxyz")
+  | "xcfg" => some (missing (neededXcfg c.xcfg) c.xcfg.H witnessXcfg XcfgDoc.encode "xcfg")
+  | "pdb" => some (missing (neededPdb c.pdb) c.pdb.H witnessPdb PdbDoc.encode "pdb")
+  | "cif" => some (missing neededCif c.cif.H witnessCif CifDoc.encode "cif")
+  | _ => none
+
+/-- `parse.<fmt> <encoded abstract document>` → outcome name under the generated configuration;
+`parse.escapes <fmt>` → `|`-separated `fmt:Kind:<encoded witness>` for every needed kind that the
+generated handler tuple lacks (`-` when none). -/
+def parsersHandle (c : AllCfg) (ws : List String) : Option String :=
+  match ws with
+  | "parse.pdffit" :: rest =>
+    some (match decodeWordDoc rest with
+      | some (s, ls) => (parsePdffit c.pdffit { lines := ls, superLat := s }).name
+      | none => "bad-op")
+  | "parse.discus" :: rest =>
+    some (match decodeWordDoc rest with
+      | some (s, ls) => (parseDiscus c.discus { lines := ls, superLat := s }).name
+      | none => "bad-op")
+  | "parse.xyz" :: rest =>
+    some (match decodeWordDoc rest with
+      | some (_, ls) => (parseXyz c.xyz { lines := ls.map (·.words) }).name
+      | none => "bad-op")
+  | "parse.rawxyz" :: rest =>
+    some (match decodeWordDoc rest with
+      | some (_, ls) => (parseRawxyz c.rawxyz { lines := ls.map (·.words) }).name
+      | none => "bad-op")
+  | "parse.xcfg" :: rest =>
+    some (match XcfgDoc.decode rest with
+      | some d => (parseXcfg c.xcfg d).name
+      | none => "bad-op")
+  | "parse.pdb" :: rest =>
+    some (match PdbDoc.decode rest with
+      | some d => (parsePdb c.pdb d).name
+      | none => "bad-op")
+  | "parse.cif" :: rest =>
+    some (match CifDoc.decode rest with
+      | some d => if d.wf then (parseCif c.cif d).name else "bad-doc"
+      | none => "bad-op")
+  | ["parse.escapes", fmt] =>
+    some (match escapesOf c fmt with
+      | some [] => "-"
+      | some l => String.intercalate " | " l
+      | none => "bad-op")
+  | _ => none
 
 end DS.Parsers
